@@ -163,6 +163,7 @@ type Op struct {
 	Nth  int      `json:"nth,omitempty"` // dialfail: fail the n-th dial of the call (1-based)
 	Ctx  int      `json:"ctx,omitempty"` // rpc: 0 no name, 1..3 ME name, 4 unknown name
 	Strm bool     `json:"stream,omitempty"`
+	Flip int      `json:"flip,omitempty"` // update: >0: endpoint (index+1) whose reachability is toggled right before the call, without settling in between
 }
 
 // Case is a complete history.
@@ -756,6 +757,17 @@ func Run(c *Case, props map[string]bool) (res Result) {
 			}
 			oldMent := mentioned(w.mes)
 			w.failAt, w.dialsInCall = 0, 0
+			if op.Flip > 0 {
+				// connectivity notifications race with the update
+				e := EPNames[(op.Flip-1)%len(EPNames)]
+				w.up[e] = !w.up[e]
+				all[e].set(w.up[e])
+				delete(readyBefore, e)
+				w.labels["fault-right-before-update"]++
+				if w.up[e] {
+					time.Sleep(time.Duration(op.Nth%4) * 500 * time.Microsecond) // let the reconnect get under way
+				}
+			}
 			if err := gme.UpdateMultiEndpoints(o); err != nil {
 				w.fail("C15", "update-rejected", "valid update rejected: %v", err)
 			}
@@ -777,7 +789,7 @@ func Run(c *Case, props map[string]bool) (res Result) {
 			// MultiEndpoints whose top up endpoint's pool was kept route correctly at once
 			for n, l := range model {
 				t := topUp(l, w.up)
-				if t == "" || w.delayed[n] || w.dups[n] || !keptOpen[t] || !readyBefore[t] || w.dialed[t][len(w.dialed[t])-1].GetState() != connectivity.Ready {
+				if t == "" || op.Flip > 0 || w.delayed[n] || w.dups[n] || !keptOpen[t] || !readyBefore[t] || w.dialed[t][len(w.dialed[t])-1].GetState() != connectivity.Ready {
 					continue
 				}
 				got, p := w.route(n, true, false)
@@ -927,13 +939,34 @@ func (w *world) corruptInit(o *grpcgcp.GCPMultiEndpointOptions, kind string) boo
 	return true
 }
 
+// Probe issues one unary RPC with the given MultiEndpoint name ("" = none) and returns the endpoint whose
+// pool it entered (pools must have been dialed with Dial).
+func Probe(gme *grpcgcp.GCPMultiEndpoint, name string, timeout time.Duration) (hit string) {
+	defer func() { recover() }()
+	ctx := context.Background()
+	if name != "" {
+		ctx = grpcgcp.NewMEContext(ctx, name)
+	}
+	ctx = context.WithValue(ctx, recKey{}, &hit)
+	ctx, cancel := context.WithTimeout(ctx, timeout)
+	defer cancel()
+	hw.NewGreeterClient(gme).SayHello(ctx, &hw.HelloRequest{Name: "probe"})
+	return
+}
+
 // Dial connects to the in-memory endpoint `target` (for other engines).
 func Dial(ctx context.Context, target string, dopts ...grpc.DialOption) (*grpc.ClientConn, error) {
 	e := endpoints()[target]
 	if e == nil {
 		return nil, fmt.Errorf("unknown endpoint %q", target)
 	}
-	dopts = append(dopts, grpc.WithContextDialer(e.dial), grpc.WithTransportCredentials(insecure.NewCredentials()),
+	rec := func(ctx context.Context, method string, req, reply interface{}, cc *grpc.ClientConn, invoker grpc.UnaryInvoker, opts ...grpc.CallOption) error {
+		if p, ok := ctx.Value(recKey{}).(*string); ok {
+			*p = target
+		}
+		return invoker(ctx, method, req, reply, cc, opts...)
+	}
+	dopts = append(dopts, grpc.WithChainUnaryInterceptor(rec), grpc.WithContextDialer(e.dial), grpc.WithTransportCredentials(insecure.NewCredentials()),
 		grpc.WithConnectParams(grpc.ConnectParams{Backoff: backoff.Config{BaseDelay: 2 * time.Millisecond, Multiplier: 1, MaxDelay: 2 * time.Millisecond}, MinConnectTimeout: 50 * time.Millisecond}))
 	return grpc.Dial("passthrough:///"+target, dopts...)
 }
